@@ -16,6 +16,31 @@ thread_local! {
     static PANICS: RefCell<Vec<String>> = const { RefCell::new(Vec::new()) };
     static SELECT_QUEUE: RefCell<std::collections::VecDeque<u32>> = const { RefCell::new(std::collections::VecDeque::new()) };
     static SELECT_LOG: RefCell<Vec<u32>> = const { RefCell::new(Vec::new()) };
+    /// run-queue picks: (point index within the current step, queue position to poll)
+    static PICK_SCRIPT: RefCell<Vec<(u16, u8)>> = const { RefCell::new(Vec::new()) };
+    /// number of runnable tasks at every pick point with at least two of them, since the last reset
+    static PICK_LOG: RefCell<Vec<u8>> = const { RefCell::new(Vec::new()) };
+    static PICK_HITS: Cell<u32> = const { Cell::new(0) };
+    /// preemption points (a task about to lock a mutex / send / receive on a channel) inside the current step
+    static SYNC_ACTIVE: Cell<bool> = const { Cell::new(false) };
+    static IN_PARKABLE: Cell<bool> = const { Cell::new(false) };
+    /// the task being polled has not passed a preemption point yet (see `set_fresh`)
+    static FRESH: Cell<bool> = const { Cell::new(false) };
+    static SYNC_COUNT: Cell<u16> = const { Cell::new(0) };
+    static PARK_AT: Cell<Option<u16>> = const { Cell::new(None) };
+    static PARK_HIT: Cell<bool> = const { Cell::new(false) };
+    static PARKED: RefCell<Vec<Waker>> = const { RefCell::new(Vec::new()) };
+}
+
+/// What the scheduler saw during one step.
+#[derive(Clone, Debug, Default)]
+pub struct StepInfo {
+    /// number of runnable tasks at every moment with at least two of them
+    pub picks: Vec<u8>,
+    /// number of preemption points passed
+    pub syncs: u16,
+    /// every scripted deviation was reached
+    pub script_hit: bool,
 }
 
 pub fn new_runtime() -> tokio::runtime::Runtime {
@@ -38,10 +63,25 @@ pub fn new_runtime() -> tokio::runtime::Runtime {
 /// Resolves once the runtime's run queue is empty (the thread is about to park).
 pub struct Quiesce {
     start: Option<u64>,
+    parkable: bool,
 }
 
 pub fn quiesce() -> Quiesce {
-    Quiesce { start: None }
+    Quiesce { start: None, parkable: false }
+}
+
+/// Like `quiesce`, and the tasks that run meanwhile pass preemption points at which the step's script may
+/// suspend them (only the plugin's own tasks run inside it: the main future is this one).
+pub fn quiesce_parkable() -> Quiesce {
+    Quiesce { start: None, parkable: true }
+}
+
+impl Drop for Quiesce {
+    fn drop(&mut self) {
+        if self.parkable {
+            IN_PARKABLE.with(|p| p.set(false));
+        }
+    }
 }
 
 impl Future for Quiesce {
@@ -49,8 +89,18 @@ impl Future for Quiesce {
     fn poll(mut self: Pin<&mut Self>, cx: &mut Context<'_>) -> Poll<()> {
         let parks = PARKS.with(|p| p.get());
         match self.start {
-            None => self.start = Some(parks),
-            Some(s) if parks > s => return Poll::Ready(()),
+            None => {
+                self.start = Some(parks);
+                if self.parkable {
+                    IN_PARKABLE.with(|p| p.set(true));
+                }
+            }
+            Some(s) if parks > s => {
+                if self.parkable {
+                    IN_PARKABLE.with(|p| p.set(false));
+                }
+                return Poll::Ready(());
+            }
             _ => {}
         }
         PARK_WAKER.with(|w| *w.borrow_mut() = Some(cx.waker().clone()));
@@ -99,8 +149,98 @@ fn select_hook(n: u32) -> u32 {
     v
 }
 
-/// Own the `select!` start branch on this thread: 0 unless a choice was queued.
+fn pick_hook(n: u32) -> u32 {
+    let i = PICK_LOG.with(|l| {
+        let mut l = l.borrow_mut();
+        l.push(n.min(255) as u8);
+        l.len() - 1
+    });
+    match PICK_SCRIPT.with(|s| s.borrow().iter().find(|(j, _)| *j as usize == i).map(|(_, k)| *k as u32)) {
+        Some(k) if k < n => {
+            PICK_HITS.with(|h| h.set(h.get() + 1));
+            k
+        }
+        _ => 0,
+    }
+}
+
+fn sync_hook(w: &Waker) -> bool {
+    if FRESH.with(|f| f.replace(false)) {
+        return false;
+    }
+    if !SYNC_ACTIVE.with(|a| a.get()) || !IN_PARKABLE.with(|p| p.get()) {
+        return false;
+    }
+    let i = SYNC_COUNT.with(|c| {
+        let i = c.get();
+        c.set(i.saturating_add(1));
+        i
+    });
+    if PARK_AT.with(|p| p.get()) == Some(i) {
+        PARK_HIT.with(|h| h.set(true));
+        PARKED.with(|p| p.borrow_mut().push(w.clone()));
+        true
+    } else {
+        false
+    }
+}
+
+/// Start a step: the oldest runnable task is polled first (FIFO) except at the scripted pick points; the task
+/// reaching preemption point `park` is suspended there until `release_parked`.
+pub fn begin_step(script: &[(u16, u8)], park: Option<u16>) {
+    PICK_SCRIPT.with(|s| *s.borrow_mut() = script.to_vec());
+    PICK_LOG.with(|l| l.borrow_mut().clear());
+    PICK_HITS.with(|h| h.set(0));
+    SYNC_ACTIVE.with(|a| a.set(true));
+    SYNC_COUNT.with(|c| c.set(0));
+    PARK_AT.with(|p| p.set(park));
+    PARK_HIT.with(|h| h.set(false));
+}
+
+pub fn end_step() -> StepInfo {
+    let scripted = PICK_SCRIPT.with(|s| std::mem::take(&mut *s.borrow_mut())).len() as u32;
+    let park = PARK_AT.with(|p| p.take());
+    SYNC_ACTIVE.with(|a| a.set(false));
+    StepInfo {
+        picks: PICK_LOG.with(|l| std::mem::take(&mut *l.borrow_mut())),
+        syncs: SYNC_COUNT.with(|c| c.get()),
+        script_hit: PICK_HITS.with(|h| h.get()) == scripted && (park.is_none() || PARK_HIT.with(|h| h.get())),
+    }
+}
+
+/// A task that has not touched shared state yet: suspending it before its first synchronisation operation is
+/// the same as starting it later (which the environment's own choices already cover), so that point is skipped.
+pub fn set_fresh(fresh: bool) {
+    FRESH.with(|f| f.set(fresh));
+}
+
+/// Suspended tasks continue (they are queued behind whatever became runnable before this call).
+pub fn release_parked() -> usize {
+    let ws = PARKED.with(|p| std::mem::take(&mut *p.borrow_mut()));
+    let n = ws.len();
+    for w in ws {
+        w.wake();
+    }
+    n
+}
+
+pub fn parked() -> usize {
+    PARKED.with(|p| p.borrow().len())
+}
+
+/// The runtime the suspended tasks lived in is gone.
+pub fn drop_parked() {
+    PARKED.with(|p| p.borrow_mut().clear());
+    FRESH.with(|f| f.set(false));
+}
+
+/// Own the `select!` start branch and the run-queue order on this thread: 0 unless a choice was queued.
 pub fn own_select() {
+    tokio::macros::support::verif_set_pick_hook(Some(pick_hook));
+    tokio::macros::support::verif_set_sync_hook(Some(sync_hook));
+    begin_step(&[], None);
+    end_step();
+    drop_parked();
     tokio::macros::support::verif_set_select_hook(Some(select_hook));
     SELECT_QUEUE.with(|q| q.borrow_mut().clear());
     SELECT_LOG.with(|l| l.borrow_mut().clear());
